@@ -17,7 +17,27 @@ from .shapes import (
     ScopeV, SemiringV, SeqV, ShapeError, State, StrV, TensorV, TupleV, UnboundShape, Unknown, V, VmapV, MAX_UNROLL, is_unknown, mkint,
 )
 
+from . import layout as L
+
 Shape = tuple[Dim, ...]
+
+
+def lays(t: TensorV) -> list:
+    return list(t.lay) if t.lay is not None else [None] * len(t.shape)
+
+
+def mk(shape: Any, dtype: str = "float", lay: Any = None) -> TensorV:
+    shape = tuple(shape)
+    if lay is not None:
+        lay = tuple(lay)
+        if len(lay) != len(shape) or (lay and all(l is None for l in lay)):
+            lay = None
+    return TensorV(shape, dtype, lay)
+
+
+def mkfresh(shape: Any, dtype: str = "float") -> TensorV:
+    shape = tuple(shape)
+    return TensorV(shape, dtype, L.fresh(shape))
 
 # ------------------------------------------------------------------------------- small helpers
 
@@ -88,10 +108,12 @@ def broadcast_shapes(shapes: list[Shape], st: State, node: ast.AST | None, what:
 
 def broadcast_values(interp: Any, vals: list[V], st: State, dtype: str | None, node: ast.AST | None = None) -> V:
     shapes: list[Shape] = []
+    ts: list[TensorV] = []
     dt = "float"
     for v in vals:
         if isinstance(v, TensorV):
             shapes.append(v.shape)
+            ts.append(v)
             dt = v.dtype if dt == "float" and v.dtype != "float" and len(vals) == 1 else dt
         elif isinstance(v, (IntV, FloatV, BoolV, NoneV)):
             continue
@@ -99,7 +121,30 @@ def broadcast_values(interp: Any, vals: list[V], st: State, dtype: str | None, n
             continue
         else:
             return interp.unk("broadcast with a non-tensor")
-    return TensorV(broadcast_shapes(shapes, st, node), dtype or "float")
+    out = broadcast_shapes(shapes, st, node)
+    return mk(out, dtype or "float", broadcast_lays(ts, out, st, node))
+
+
+def broadcast_lays(ts: list[TensorV], out: Shape, st: State, node: ast.AST | None, what: str = "element-wise operator") -> list:
+    r = len(out)
+    res: list = []
+    for i in range(1, r + 1):
+        cands = []
+        for t in ts:
+            if len(t.shape) < i or is_one(t.shape[-i], st):
+                continue
+            cands.append(lays(t)[-i])
+        if is_one(out[-i], st):
+            res.append(())
+            continue
+        if not cands:
+            res.append(None)
+            continue
+        m, conflict = L.merge(cands)
+        if conflict:
+            raise ShapeError(f"{what}: axis -{i} of the operands holds {conflict} -- entries that do not belong together are combined", node)
+        res.append(m)
+    return list(reversed(res))
 
 
 def broadcastable_to(src: Shape, dst: Shape, st: State) -> bool:
@@ -165,9 +210,10 @@ def tensor_attr(interp: Any, t: TensorV, attr: str, st: State) -> V:
     if attr in ("T", "mT", "mH", "H"):
         if len(t.shape) < 2:
             return t
+        ll = lays(t)
         if attr == "T":
-            return TensorV(tuple(reversed(t.shape)), t.dtype)
-        return TensorV(t.shape[:-2] + (t.shape[-1], t.shape[-2]), t.dtype)
+            return mk(tuple(reversed(t.shape)), t.dtype, list(reversed(ll)))
+        return mk(t.shape[:-2] + (t.shape[-1], t.shape[-2]), t.dtype, ll[:-2] + [ll[-1], ll[-2]])
     if attr == "ndim":
         return mkint(len(t.shape))
     if attr == "requires_grad":
@@ -238,13 +284,14 @@ def _index_items(iv: V) -> list[V]:
     return [iv]
 
 
-def index_shape(interp: Any, t: TensorV, iv: V, st: State, node: ast.AST | None) -> Shape | None:
+def index_shape(interp: Any, t: TensorV, iv: V, st: State, node: ast.AST | None) -> tuple[Shape, list] | None:
+    """shape and per-axis layouts of ``t[iv]``"""
     items = _index_items(iv)
-    # expand ellipsis
     n_consume = sum(1 for x in items if not isinstance(x, NoneV) and not (isinstance(x, BuiltinV) and x.name == "Ellipsis"))
     for x in items:
         if isinstance(x, TensorV) and x.dtype == "bool":
             return None
+    full = TupleV((NONE, NONE, NONE), "slice")
     if any(isinstance(x, BuiltinV) and x.name == "Ellipsis" for x in items):
         k = [i for i, x in enumerate(items) if isinstance(x, BuiltinV) and x.name == "Ellipsis"]
         if len(k) > 1:
@@ -252,19 +299,23 @@ def index_shape(interp: Any, t: TensorV, iv: V, st: State, node: ast.AST | None)
         fill = len(t.shape) - n_consume
         if fill < 0:
             raise ShapeError(f"too many indices for a tensor of rank {len(t.shape)}", node)
-        items = items[: k[0]] + [TupleV((NONE, NONE, NONE), "slice")] * fill + items[k[0] + 1 :]
+        items = items[: k[0]] + [full] * fill + items[k[0] + 1 :]
     elif n_consume > len(t.shape):
         raise ShapeError(f"too many indices ({n_consume}) for a tensor of shape {fmt_shape(st.norm_shape(t.shape))}", node)
     else:
-        items = items + [TupleV((NONE, NONE, NONE), "slice")] * (len(t.shape) - n_consume)
+        items = items + [full] * (len(t.shape) - n_consume)
     has_adv = any(isinstance(x, TensorV) or (isinstance(x, TupleV) and x.kind in ("list", "tuple")) for x in items)
-    out: list[Dim | str] = []
+    src_l = lays(t)
+    out: list[Any] = []
+    out_l: list[Any] = []
     adv_shapes: list[Shape] = []
     adv_pos: list[int] = []
+    tags: list[tuple[str, int]] = []
     ax = 0
     for x in items:
         if isinstance(x, NoneV):
             out.append(Dim.const(1))
+            out_l.append(())
             continue
         size = t.shape[ax]
         if isinstance(x, TupleV) and x.kind == "slice":
@@ -272,56 +323,71 @@ def index_shape(interp: Any, t: TensorV, iv: V, st: State, node: ast.AST | None)
             if ln is None:
                 return None
             out.append(ln)
+            out_l.append(src_l[ax] if st.norm(ln) == st.norm(size) else (() if ln.as_int() == 1 else None))
         elif isinstance(x, IntV):
             i = geti(x, st)
             sz = st.norm(size).as_int()
             if i is not None and sz is not None and not -sz <= i < sz:
                 raise ShapeError(f"index {i} is out of bounds for axis {ax} with size {sz}", node)
+            la = src_l[ax]
+            if i is not None and la is not None and len(la) == 1:
+                tags.append((L.base_label(la[0][0]), i))
+            elif i is not None and sz is not None and t.lay is not None and la is None:
+                pass
             if has_adv:
                 adv_shapes.append(())
                 adv_pos.append(len(out))
                 out.append("adv")
+                out_l.append("adv")
         elif isinstance(x, TensorV):
             adv_shapes.append(x.shape)
             adv_pos.append(len(out))
             out.append("adv")
+            out_l.append("adv")
         elif isinstance(x, TupleV) and x.kind in ("list", "tuple"):
             adv_shapes.append((Dim.const(len(x.items)),))
             adv_pos.append(len(out))
             out.append("adv")
+            out_l.append("adv")
         else:
             return None
         ax += 1
     if adv_shapes:
         b = broadcast_shapes(adv_shapes, st, node, "advanced indexing")
+        bl: list[Any] = [() if is_one(d, st) else None for d in b]
         contiguous = adv_pos == list(range(adv_pos[0], adv_pos[0] + len(adv_pos)))
-        rest = [d for d in out if d != "adv"]
         if contiguous:
             k = adv_pos[0]
             res = [d for d in out[:k] if d != "adv"] + list(b) + [d for d in out[k:] if d != "adv"]
+            resl = [d for d in out_l[:k] if d != "adv"] + bl + [d for d in out_l[k:] if d != "adv"]
         else:
-            res = list(b) + rest
-        return tuple(res)  # type: ignore[arg-type]
-    return tuple(d for d in out)  # type: ignore[misc]
+            res = list(b) + [d for d in out if d != "adv"]
+            resl = bl + [d for d in out_l if d != "adv"]
+    else:
+        res, resl = list(out), list(out_l)
+    for lab, i in tags:
+        resl = [L.tag(l, lab, i) if l is not None else None for l in resl]
+    return tuple(res), resl
 
 
 def getitem(interp: Any, t: TensorV, iv: V, st: State, node: ast.AST | None) -> V:
     for x in _index_items(iv):
         if is_unknown(x) or isinstance(x, UnboundShape):
             return interp.unk("tensor index unknown")
-    shp = index_shape(interp, t, iv, st, node)
-    if shp is None:
+    r = index_shape(interp, t, iv, st, node)
+    if r is None:
         return interp.unk("tensor index outside the modelled forms")
-    return TensorV(shp, t.dtype)
+    return mk(r[0], t.dtype, r[1])
 
 
 def setitem(interp: Any, t: TensorV, iv: V, val: V, st: State, node: ast.AST | None) -> None:
     for x in _index_items(iv):
         if is_unknown(x):
             return
-    shp = index_shape(interp, t, iv, st, node)
-    if shp is None or not isinstance(val, TensorV):
+    r = index_shape(interp, t, iv, st, node)
+    if r is None or not isinstance(val, TensorV):
         return
+    shp = r[0]
     if not broadcastable_to(val.shape, shp, st):
         raise ShapeError(
             f"assignment of a value of shape {fmt_shape(st.norm_shape(val.shape))} into an indexed region of shape {fmt_shape(st.norm_shape(shp))}", node
@@ -346,10 +412,16 @@ def matmul(interp: Any, a: V, b: V, st: State, node: ast.AST | None) -> V:
         raise ShapeError(f"matmul: contracted sizes {st.norm(sa[-1])!r} and {st.norm(sb[-2])!r} of {fmt_shape(st.norm_shape(a.shape))} @ {fmt_shape(st.norm_shape(b.shape))} differ", node)
     batch = broadcast_shapes([sa[:-2], sb[:-2]], st, node, "matmul batch")
     out = batch + (() if va else (sa[-2],)) + (() if vb else (sb[-1],))
-    return TensorV(out)
+    la, lb = lays(a), lays(b)
+    nb = len(batch)
+    bl_a = ([None] * nb + la[:-2])[-nb:] if nb else []
+    bl_b = ([None] * nb + lb[:-2])[-nb:] if nb else []
+    bl = [x if x is not None else y for x, y in zip(bl_a, bl_b)]
+    lay = bl + ([] if va else [la[-2] if len(la) >= 2 else None]) + ([] if vb else [lb[-1]])
+    return mk(out, "float", lay)
 
 
-def einsum_shapes(subs_in: list[list[Any]], sub_out: list[Any] | None, shapes: list[Shape], st: State, node: ast.AST | None) -> Shape:
+def einsum_shapes(subs_in: list[list[Any]], sub_out: list[Any] | None, shapes: list[Shape], st: State, node: ast.AST | None, lays_in: list[list] | None = None, sink: list | None = None) -> tuple[Shape, list]:
     if len(subs_in) != len(shapes):
         raise ShapeError(f"einsum: {len(subs_in)} subscript groups for {len(shapes)} operands", node)
     env: dict[Any, Dim] = {}
@@ -376,20 +448,38 @@ def einsum_shapes(subs_in: list[list[Any]], sub_out: list[Any] | None, shapes: l
     for l in sub_out:
         if l not in env:
             raise ShapeError(f"einsum: output subscript {l!r} does not appear in any operand", node)
-    return tuple(env[l] for l in sub_out)
+    # layouts: every axis bound to one subscript must list its elements in the same order
+    lenv: dict[Any, Any] = {}
+    if lays_in is not None:
+        per: dict[Any, list] = {}
+        for sub, shp, ll in zip(subs_in, shapes, lays_in):
+            for letter, d, la in zip(sub, shp, ll):
+                if not is_one(d, st):
+                    per.setdefault(letter, []).append(la)
+        for letter, cands in per.items():
+            m, conflict = L.merge(cands)
+            if conflict:
+                raise ShapeError(f"einsum: subscript {letter!r} pairs axes that hold {conflict} -- the contraction multiplies entries that do not belong together", node)
+            lenv[letter] = m
+            if sink is not None and letter not in sub_out and len(cands) > 1:
+                sink.append((letter, list(cands)))
+    return tuple(env[l] for l in sub_out), [lenv.get(l, () if is_one(env[l], st) else None) for l in sub_out]
 
 
 def do_einsum(interp: Any, eq: V, operands: list[V], st: State, node: ast.AST | None) -> V:
     if any(not isinstance(o, TensorV) for o in operands):
         return interp.unk("einsum operand unknown")
     shapes = [o.shape for o in operands]  # type: ignore[union-attr]
+    lays_in = [lays(o) for o in operands]  # type: ignore[arg-type]
+    sink = getattr(interp, "pairings", None)
     if isinstance(eq, StrV) and eq.s is not None:
         s = eq.s.replace(" ", "")
         if "." in s:
             return interp.unk("einsum with ellipsis")
         lhs, arrow, rhs = s.partition("->")
         subs = [list(x) for x in lhs.split(",")]
-        return TensorV(einsum_shapes(subs, list(rhs) if arrow else None, shapes, st, node))
+        shp, ll = einsum_shapes(subs, list(rhs) if arrow else None, shapes, st, node, lays_in, sink)
+        return mk(shp, "float", ll)
     items = seq_items(eq)
     if items is not None:
         subs2: list[list[Any]] = []
@@ -403,7 +493,8 @@ def do_einsum(interp: Any, eq: V, operands: list[V], st: State, node: ast.AST | 
             subs2.append(ints)
         if len(subs2) != len(shapes) + 1:
             raise ShapeError(f"einsum: {len(subs2) - 1} input sublists for {len(shapes)} operands", node)
-        return TensorV(einsum_shapes(subs2[:-1], subs2[-1], shapes, st, node))
+        shp, ll = einsum_shapes(subs2[:-1], subs2[-1], shapes, st, node, lays_in, sink)
+        return mk(shp, "float", ll)
     return interp.unk("einsum equation unknown")
 
 
@@ -429,6 +520,25 @@ def reduce_shape(t: TensorV, dim: V | None, keepdim: V | None, st: State, node: 
     if keep:
         return tuple(Dim.const(1) if i in dims else d for i, d in enumerate(t.shape))
     return tuple(d for i, d in enumerate(t.shape) if i not in dims)
+
+
+def reduce_lay(t: TensorV, dim: V | None, keepdim: V | None, st: State) -> list | None:
+    keep = isinstance(keepdim, BoolV) and keepdim.val is True
+    ll = lays(t)
+    if dim is None or isinstance(dim, NoneV):
+        return [() for _ in ll] if keep else []
+    dims_v = seq_items(dim) if not isinstance(dim, IntV) else [dim]
+    if dims_v is None:
+        return None
+    ds = []
+    for d in dims_v:
+        i = geti(d, st)
+        if i is None:
+            return None
+        ds.append(i % len(ll) if ll else 0)
+    if keep:
+        return [() if i in ds else l for i, l in enumerate(ll)]
+    return [l for i, l in enumerate(ll) if i not in ds]
 
 
 def view_shape(t: TensorV, sizes: list[V], st: State, node: ast.AST | None, what: str, interp: Any) -> Shape | None:
@@ -469,14 +579,16 @@ def apply_vmap(interp: Any, vm: VmapV, args: list[V], kwargs: dict[str, V], st: 
             mapped = d
         elif mapped != d:
             raise ShapeError(f"vmap: mapped axes have sizes {mapped!r} and {d!r}", node)
-        inner.append(TensorV(a.shape[:k] + a.shape[k + 1 :], a.dtype))
+        la = lays(a)
+        mapped_l = la[k]
+        inner.append(mk(a.shape[:k] + a.shape[k + 1 :], a.dtype, la[:k] + la[k + 1 :]))
     outs = list(interp.apply(vm.fn, inner, {}, st, fr, node))
     if len(outs) != 1:
         return interp.unk("vmap body forks")
     r = outs[0][0]
     if not isinstance(r, TensorV) or mapped is None:
         return interp.unk("vmap body unknown")
-    return TensorV((mapped,) + r.shape, r.dtype)
+    return mk((mapped,) + r.shape, r.dtype, [mapped_l] + lays(r))
 
 
 def parse_einops(pattern: str) -> tuple[list[str], list[str]] | None:
@@ -559,7 +671,7 @@ def tensor_op(interp: Any, op: str, args: list[V], kwargs: dict[str, V], st: Sta
             if "fill_value" not in kwargs and len(a) >= 2:
                 a = a[:-1] if seq_items(a[0]) is None else a[:1]
         shp = size_arg(a, kwargs, st)
-        return TensorV(shp) if shp is not None else unk(f"torch.{op} size")
+        return mkfresh(st.norm_shape(shp)) if shp is not None else unk(f"torch.{op} size")
     if op == "arange":
         ds = [getd(a, st) for a in args[:2]]
         if any(d is None for d in ds) or len(args) > 2 or not ds:
@@ -627,11 +739,11 @@ def tensor_op(interp: Any, op: str, args: list[V], kwargs: dict[str, V], st: Sta
         return None
 
     if op in ELEMENTWISE:
-        return TensorV(t.shape, t.dtype if op in ("clone", "contiguous", "detach", "cpu", "cuda", "to", "type") else "float")
+        return TensorV(t.shape, t.dtype if op in ("clone", "contiguous", "detach", "cpu", "cuda", "to", "type") else "float", t.lay)
     if op in TO_INT:
-        return TensorV(t.shape, "int")
+        return TensorV(t.shape, "int", t.lay)
     if op in TO_BOOL:
-        return TensorV(t.shape, "bool")
+        return TensorV(t.shape, "bool", t.lay)
     if op == "clamp" or op == "clip":
         others = [v for v in (kw("min", 0), kw("max", 1)) if isinstance(v, TensorV)]
         return broadcast_values(interp, [t] + others, st, None, node)
@@ -655,9 +767,10 @@ def tensor_op(interp: Any, op: str, args: list[V], kwargs: dict[str, V], st: Sta
         if shp is None:
             return unk(f"{op} with symbolic dim")
         dt = "bool" if op in ("any", "all") else ("int" if op in ("argmax", "argmin") else "float")
+        rl = reduce_lay(t, dim, keep, st)
         if op in ("max", "min", "median") and dim is not None and not isinstance(dim, NoneV):
-            return TupleV((TensorV(shp), TensorV(shp, "int")))
-        return TensorV(shp, dt)
+            return TupleV((mk(shp, "float", rl), mk(shp, "int", rl)))
+        return mk(shp, dt, rl)
     if op in ALONG_DIM:
         dim = kw("dim", 0) if op != "flip" else kw("dims", 0)
         ds = [dim] if isinstance(dim, IntV) else (seq_items(dim) or [])
@@ -667,14 +780,17 @@ def tensor_op(interp: Any, op: str, args: list[V], kwargs: dict[str, V], st: Sta
                 return unk(f"{op} symbolic dim")
             axis(i, rank, node, op)
         if op == "sort":
-            return TupleV((t, TensorV(t.shape, "int")))
-        return TensorV(t.shape, t.dtype)
+            return TupleV((TensorV(t.shape, t.dtype), TensorV(t.shape, "int")))
+        if op in ("flip", "roll"):
+            return TensorV(t.shape, t.dtype)
+        return TensorV(t.shape, t.dtype, t.lay)
     if op == "unsqueeze":
         i = geti(kw("dim", 0), st)
         if i is None:
             return unk("unsqueeze symbolic dim")
         k = axis(i, rank, node, "unsqueeze", extra=1)
-        return TensorV(t.shape[:k] + (Dim.const(1),) + t.shape[k:], t.dtype)
+        ll = lays(t)
+        return mk(t.shape[:k] + (Dim.const(1),) + t.shape[k:], t.dtype, ll[:k] + [()] + ll[k:])
     if op == "squeeze":
         d = kw("dim", 0)
         if d is None:
@@ -689,6 +805,8 @@ def tensor_op(interp: Any, op: str, args: list[V], kwargs: dict[str, V], st: Sta
                 return unk("squeeze symbolic dim")
             ks.append(axis(i, rank, node, "squeeze"))
         out = []
+        outl = []
+        tl = lays(t)
         for i, x in enumerate(t.shape):
             if i in ks:
                 xn = st.norm(x)
@@ -700,7 +818,8 @@ def tensor_op(interp: Any, op: str, args: list[V], kwargs: dict[str, V], st: Sta
                         node,
                     )
             out.append(x)
-        return TensorV(tuple(out), t.dtype)
+            outl.append(tl[i])
+        return mk(tuple(out), t.dtype, outl)
     if op == "permute":
         items = rest if not (len(rest) == 1 and seq_items(rest[0]) is not None) else seq_items(rest[0])
         if "dims" in kwargs:
@@ -715,7 +834,8 @@ def tensor_op(interp: Any, op: str, args: list[V], kwargs: dict[str, V], st: Sta
         nidx = [axis(i, rank, node, "permute") for i in idx]  # type: ignore[arg-type]
         if sorted(nidx) != list(range(rank)):
             raise ShapeError(f"permute: {idx} is not a permutation", node)
-        return TensorV(tuple(t.shape[i] for i in nidx), t.dtype)
+        ll = lays(t)
+        return mk(tuple(t.shape[i] for i in nidx), t.dtype, [ll[i] for i in nidx])
     if op in ("transpose", "swapaxes", "swapdims"):
         a, b = geti(kw("dim0", 0), st), geti(kw("dim1", 1), st)
         if a is None or b is None:
@@ -723,9 +843,11 @@ def tensor_op(interp: Any, op: str, args: list[V], kwargs: dict[str, V], st: Sta
         a, b = axis(a, rank, node, "transpose"), axis(b, rank, node, "transpose")
         s = list(t.shape)
         s[a], s[b] = s[b], s[a]
-        return TensorV(tuple(s), t.dtype)
+        ll = lays(t)
+        ll[a], ll[b] = ll[b], ll[a]
+        return mk(tuple(s), t.dtype, ll)
     if op == "t":
-        return TensorV(tuple(reversed(t.shape)), t.dtype) if rank <= 2 else unk("t")
+        return mk(tuple(reversed(t.shape)), t.dtype, list(reversed(lays(t)))) if rank <= 2 else unk("t")
     if op == "movedim":
         a, b = geti(kw("source", 0), st), geti(kw("destination", 1), st)
         if a is None or b is None:
@@ -734,7 +856,10 @@ def tensor_op(interp: Any, op: str, args: list[V], kwargs: dict[str, V], st: Sta
         s = list(t.shape)
         x = s.pop(a)
         s.insert(b, x)
-        return TensorV(tuple(s), t.dtype)
+        ll = lays(t)
+        xl = ll.pop(a)
+        ll.insert(b, xl)
+        return mk(tuple(s), t.dtype, ll)
     if op == "flatten":
         a = geti(kw("start_dim", 0) or mkint(0), st)
         b = geti(kw("end_dim", 1) or mkint(-1), st)
@@ -745,7 +870,10 @@ def tensor_op(interp: Any, op: str, args: list[V], kwargs: dict[str, V], st: Sta
         a, b = axis(a, rank, node, "flatten"), axis(b, rank, node, "flatten")
         if a > b:
             raise ShapeError(f"flatten: start_dim {a} > end_dim {b}", node)
-        return TensorV(t.shape[:a] + (prod(t.shape[a : b + 1]),) + t.shape[b + 1 :], t.dtype)
+        ll = lays(t)
+        seg = ll[a : b + 1]
+        merged = None if any(x is None for x in seg) else tuple(at for x in seg for at in x)
+        return mk(t.shape[:a] + (prod(t.shape[a : b + 1]),) + t.shape[b + 1 :], t.dtype, ll[:a] + [merged] + ll[b + 1 :])
     if op == "unflatten":
         i = geti(kw("dim", 0), st)
         sizes = seq_items(kw("sizes", 1))
@@ -765,7 +893,9 @@ def tensor_op(interp: Any, op: str, args: list[V], kwargs: dict[str, V], st: Sta
         if any(isinstance(x, OpaqueV) for x in sizes):
             return TensorV(t.shape, t.dtype)  # view(dtype)
         shp = view_shape(t, sizes, st, node, op, interp)
-        return TensorV(shp, t.dtype) if shp is not None else unk(f"{op} with unknown sizes")
+        if shp is None:
+            return unk(f"{op} with unknown sizes")
+        return mk(shp, t.dtype, L.regroup(lays(t), list(shp), st.norm))
     if op in ("expand", "broadcast_to"):
         sizes = rest if not (len(rest) == 1 and seq_items(rest[0]) is not None) else seq_items(rest[0])
         if "size" in kwargs:
@@ -778,6 +908,8 @@ def tensor_op(interp: Any, op: str, args: list[V], kwargs: dict[str, V], st: Sta
         if len(ds) < rank:
             raise ShapeError(f"expand: {len(ds)} sizes {fmt_shape(ds)} for a tensor of rank {rank} {fmt_shape(st.norm_shape(t.shape))}", node)  # type: ignore[arg-type]
         out2: list[Dim] = []
+        outl2: list = []
+        tl2 = lays(t)
         off = len(ds) - rank
         for i, d in enumerate(ds):
             assert d is not None
@@ -785,15 +917,18 @@ def tensor_op(interp: Any, op: str, args: list[V], kwargs: dict[str, V], st: Sta
                 if d.as_int() == -1:
                     raise ShapeError("expand: -1 is not allowed in a leading, non-existing dimension", node)
                 out2.append(d)
+                outl2.append(L.fresh_axis(d))
                 continue
             cur = st.norm(t.shape[i - off])
             if d.as_int() == -1 or d == cur:
                 out2.append(cur)
+                outl2.append(tl2[i - off])
             elif is_one(cur, st):
                 out2.append(d)
+                outl2.append(L.fresh_axis(d))
             else:
                 raise ShapeError(f"expand: size {d!r} at axis {i} does not match the existing non-singleton size {cur!r} of {fmt_shape(st.norm_shape(t.shape))}", node)
-        return TensorV(tuple(out2), t.dtype)
+        return mk(tuple(out2), t.dtype, outl2)
     if op == "expand_as" and rest and isinstance(rest[0], TensorV):
         if not broadcastable_to(t.shape, rest[0].shape, st):
             raise ShapeError(f"expand_as: {fmt_shape(st.norm_shape(t.shape))} is not expandable to {fmt_shape(st.norm_shape(rest[0].shape))}", node)
@@ -822,9 +957,15 @@ def tensor_op(interp: Any, op: str, args: list[V], kwargs: dict[str, V], st: Sta
         if i is None:
             return unk("unbind symbolic dim")
         k = axis(i, rank, node, "unbind")
-        elem = TensorV(t.shape[:k] + t.shape[k + 1 :], t.dtype)
+        ll = lays(t)
+        rest_l = ll[:k] + ll[k + 1 :]
+        elem = mk(t.shape[:k] + t.shape[k + 1 :], t.dtype, rest_l)
         n = st.norm(t.shape[k]).as_int()
         if n is not None and n <= MAX_UNROLL:
+            lk = ll[k]
+            if lk is not None and len(lk) == 1:
+                lab = L.base_label(lk[0][0])
+                return TupleV(tuple(mk(elem.shape, t.dtype, [L.tag(x, lab, i) for x in rest_l]) for i in range(n)))
             return TupleV(tuple(elem for _ in range(n)))
         return SeqV(elem, st.norm(t.shape[k]))
     if op in ("chunk", "split", "tensor_split"):
@@ -837,7 +978,8 @@ def tensor_op(interp: Any, op: str, args: list[V], kwargs: dict[str, V], st: Sta
         if len(idx.shape) > 1:
             raise ShapeError(f"index_select: the index must be 1-D, got {fmt_shape(idx.shape)}", node)
         n = idx.shape[0] if idx.shape else Dim.const(1)
-        return TensorV(t.shape[:k] + (n,) + t.shape[k + 1 :], t.dtype)
+        ll = lays(t)
+        return mk(t.shape[:k] + (n,) + t.shape[k + 1 :], t.dtype, ll[:k] + [() if is_one(n, st) else (("<selected>", n),)] + ll[k + 1 :])
     if op in ("gather", "take_along_dim"):
         if op == "gather":
             i, idx = geti(kw("dim", 0), st), kw("index", 1)
@@ -858,10 +1000,10 @@ def tensor_op(interp: Any, op: str, args: list[V], kwargs: dict[str, V], st: Sta
         shp = size_arg(a, kwargs, st)
         return TensorV(shp) if shp is not None else unk(op)
     if op in LIKE:
-        return TensorV(t.shape)
+        return TensorV(t.shape, "float", t.lay)
     if op == "diag":
         if rank == 1:
-            return TensorV((t.shape[0], t.shape[0]), t.dtype)
+            return mk((t.shape[0], t.shape[0]), t.dtype, [lays(t)[0], lays(t)[0]])
         if rank == 2:
             if same(t.shape[0], t.shape[1], st):
                 return TensorV((t.shape[0],), t.dtype)
@@ -879,7 +1021,10 @@ def tensor_op(interp: Any, op: str, args: list[V], kwargs: dict[str, V], st: Sta
         r = max(len(ra), len(rb))
         ra = (Dim.const(1),) * (r - len(ra)) + ra
         rb = (Dim.const(1),) * (r - len(rb)) + rb
-        return TensorV(tuple(a * b for a, b in zip(ra, rb)))
+        la_ = [()] * (r - len(t.shape)) + lays(t)
+        lb_ = [()] * (r - len(o.shape)) + lays(o)
+        kl = [None if (x is None or y is None) else tuple(x) + tuple(y) for x, y in zip(la_, lb_)]
+        return mk(tuple(a * b for a, b in zip(ra, rb)), "float", kl)
     if op in ("matmul", "mm", "bmm"):
         return matmul(interp, t, rest[0] if rest else kwargs.get("other", interp.unk("mm")), st, node)
     if op in ("outer",):
@@ -952,7 +1097,9 @@ def stack_cat(interp: Any, op: str, args: list[V], kwargs: dict[str, V], st: Sta
             if st.norm_shape(x.shape) != st.norm_shape(ts[0].shape):
                 raise ShapeError(f"stack: tensors of different shapes {fmt_shape(st.norm_shape(ts[0].shape))} and {fmt_shape(st.norm_shape(x.shape))}", node)
         k = axis(i, r, node, "stack", extra=1)
-        return TensorV(ts[0].shape[:k] + (Dim.const(len(ts)),) + ts[0].shape[k:], ts[0].dtype)
+        l0 = lays(ts[0])
+        same = all(lays(x) == l0 for x in ts[1:])
+        return mk(ts[0].shape[:k] + (Dim.const(len(ts)),) + ts[0].shape[k:], ts[0].dtype, (l0[:k] + [None] + l0[k:]) if same else None)
     k = axis(i, r, node, "cat")
     total = Dim.const(0)
     for x in ts:
@@ -990,7 +1137,8 @@ def fft_op(interp: Any, op: str, args: list[V], kwargs: dict[str, V], st: State,
             return interp.unk("irfft without n")
     else:
         return interp.unk("fft." + op)
-    return TensorV(t.shape[:k] + (out,) + t.shape[k + 1 :])
+    ll = lays(t)
+    return mk(t.shape[:k] + (out,) + t.shape[k + 1 :], "float", ll[:k] + [None] + ll[k + 1 :])
 
 
 # ------------------------------------------------------------------------------- semiring, distributions, einops
@@ -1019,7 +1167,7 @@ def semiring_op(interp: Any, op: str, args: list[V], kwargs: dict[str, V], st: S
             return
         dim = kwargs.get("dim", args[1] if len(args) > 1 else None)
         shp = reduce_shape(t, dim, kwargs.get("keepdim", args[2] if len(args) > 2 else None), st, node, "semiring." + op)
-        yield (TensorV(shp) if shp is not None else interp.unk("semiring reduce dim")), st
+        yield (mk(shp, "float", reduce_lay(t, dim, kwargs.get("keepdim", args[2] if len(args) > 2 else None), st)) if shp is not None else interp.unk("semiring reduce dim")), st
     elif op in ("mul", "add"):
         yield broadcast_values(interp, list(args), st, None, node), st
     elif op in ("map_from", "cast"):
@@ -1120,7 +1268,8 @@ def einops_op(interp: Any, op: str, args: list[V], kwargs: dict[str, V], st: Sta
             raise ShapeError(f"einops.{op}: axis '{a}' of '{pat.s}' is neither an input axis nor given a length", node)
     if op == "rearrange" and sorted(l) != sorted(r):
         raise ShapeError(f"einops.rearrange: '{pat.s}' does not keep the set of axes", node)
-    return TensorV(tuple(out), t.dtype)  # type: ignore[arg-type]
+    lenv = dict(zip(l, lays(t)))
+    return mk(tuple(out), t.dtype, [lenv.get(a) if a in env else None for a in r])  # type: ignore[arg-type]
 
 
 # ------------------------------------------------------------------------------- python level
